@@ -108,10 +108,10 @@ theorem paths_use_slots : ∀ p ∈ paths, ∀ st ∈ p.2,
 
 /-- every_path_step_registered.  End to end, for every configuration: each step of each listed creation
 path (load, create, insertGlyph, dictAppend, factory, penDraw, reverse, pointInsertion, decompose,
-reload, deserialize) that creates or guards role `r` is executed inside an object that IS reachable
+reload, deserialize) that creates role `r` is executed inside an object that IS reachable
 from the font along the step's chain, and instantiates exactly the class expected for `r`. -/
 theorem every_path_step_registered (cfg : Cfg) : ∀ p ∈ paths, ∀ st ∈ p.2, ∀ r : Role,
-    (dispOf st.site = some (.handedOut r) ∨ dispOf st.site = some (.guard r)) →
+    dispOf st.site = some (.handedOut r) →
     ∃ s o, W.site st.site = some s ∧ reachIds W cfg st.via = some o ∧ o.cd = s.owner ∧
       classAt W o s = some (expected cfg r) := by
   intro p hp st hst r hd
@@ -136,13 +136,14 @@ theorem every_path_step_registered (cfg : Cfg) : ∀ p ∈ paths, ∀ st ∈ p.2
         refine ⟨s, interpObj cfg ao, rfl, ?_, h3.1, ?_⟩
         · unfold reachIds; rw [hv]; exact hreach
         · have hid : s.id = st.site := (site_some hs).2
-          exact slot_flow_identity cfg chain _ s r hin hreach (site_some hs).1 h3.1.symm (by rw [hid]; exact hd)
+          exact slot_flow_identity cfg chain _ s r hin hreach (site_some hs).1 h3.1.symm
+            (Or.inl (by rw [hid]; exact hd))
 
-/-- catalogue_complete.  Every creation site the extractor finds in the sources is catalogued; every site
-that hands out (or guards) a role lies on at least one listed path; so a new or re-routed creation
-site cannot go unnoticed by these theorems. -/
+/-- catalogue_complete.  Every creation site (and isinstance guard) the extractor finds in the sources is
+catalogued, and every site that hands out a role lies on at least one listed path; so a new or re-routed
+creation site cannot go unnoticed by these theorems. -/
 theorem catalogue_complete : ∀ s ∈ W.sites, ∃ d, dispOf s.id = some d ∧
-    (d ≠ .scratch → ∃ p ∈ paths, ∃ st ∈ p.2, st.site = s.id) := by
+    (∀ r, d = .handedOut r → ∃ p ∈ paths, ∃ st ∈ p.2, st.site = s.id) := by
   intro s hs
   have h := paths_certified.2
   unfold pathsCover at h
@@ -152,17 +153,21 @@ theorem catalogue_complete : ∀ s ∈ W.sites, ∃ d, dispOf s.id = some d ∧
   | none => simp [hd] at h1
   | some d =>
     refine ⟨d, rfl, ?_⟩
-    intro hne
-    cases d with
-    | scratch => exact absurd rfl hne
-    | handedOut r =>
-      simp only [hd, List.any_eq_true] at h1
-      obtain ⟨p, hp, st, hst, he⟩ := h1
-      exact ⟨p, hp, st, hst, by simpa using he⟩
-    | guard r =>
-      simp only [hd, List.any_eq_true] at h1
-      obtain ⟨p, hp, st, hst, he⟩ := h1
-      exact ⟨p, hp, st, hst, by simpa using he⟩
+    intro r hr
+    subst hr
+    simp only [hd, List.any_eq_true] at h1
+    obtain ⟨p, hp, st, hst, he⟩ := h1
+    exact ⟨p, hp, st, hst, by simpa using he⟩
+
+/-- guards_test_registered_class.  Every `isinstance(x, <class>)` guard of the code that decides whether an
+anchor / guideline handed in by the caller is converted tests against exactly the class expected for the
+role, in every reachable object and configuration (so a foreign object of defcon's plain class IS
+converted when the role is customised). -/
+theorem guards_test_registered_class (cfg : Cfg) (chain : List Site) (o : Obj) (s : Site) (r : Role)
+    (hin : ∀ x ∈ chain, x ∈ W.sites) (hr : reach W cfg chain = some o)
+    (hs : s ∈ W.sites) (hown : s.owner = o.cd) (hd : dispOf s.id = some (.guard r)) :
+    classAt W o s = some (expected cfg r) :=
+  slot_flow_identity cfg chain o s r hin hr hs hown (Or.inr hd)
 
 /-- all_roles_on_paths.  Each of the 17 roles is created by at least one site of at least one listed path
 (so `every_path_step_registered` says something about every role). -/
@@ -207,7 +212,7 @@ example : ∃ chain o s, (∀ x ∈ chain, x ∈ W.sites) ∧ reach W cfgA chain
     | some s =>
       have hin := mapM_site_mem hv
       have hex := every_path_step_registered cfgA ("dictAppend", pathSteps "dictAppend") (by decide)
-        (glyphStep "Glyph.instantiateAnchor") (by decide) .anchor (Or.inl (by decide))
+        (glyphStep "Glyph.instantiateAnchor") (by decide) .anchor (by decide)
       obtain ⟨s', o, hs', ho, hown, hcls⟩ := hex
       have e : s' = s := by
         have : W.site "Glyph.instantiateAnchor" = some s' := hs'
